@@ -17,19 +17,37 @@ OBLIGATIONS = [NS + t for t in [
     "steps_perm_trace", "trace_in_grid", "trace_nodup", "trace_budget", "nonfinite_rejected", "optimize_terminates",
     # ml::tune / ml::result_t
     "decode_bijective", "slots_disjoint", "tune_calls_once", "batch_slots", "batch_keeps_old", "optimum_is_argmin",
+    # the quadratic surrogate: feature map, fit objective (mse), fitted quadratic — gradient = derivative, convexity
+    "fit_expand", "fit_rows_same_length", "fit_above_tangent", "fit_convex", "fit_stationary_is_min", "fit_grad_is_deriv",
+    "quad_expand", "quad_stationary_is_min", "quad_is_fit_output", "quad_grad_is_deriv", "quadDim_quadLen", "quadSize_le",
+    # param_space_t and the centre the surrogate tuner derives from the minimiser (oracle = the two solver runs only)
+    "closest_point_optimal", "closest_roundtrip", "space_make_spec", "toSurrogate_none_iff", "toSurrogate_linear",
+    "toSurrogate_linear_strictMono", "fromSurrogate_mem", "fromSurrogate_toSurrogate_linear", "sgrid_isSome",
+    "closestGridPoint_roundtrip_linear", "centreOf_inGrid", "surrogate_step_centre",
+    "toSurrogate_log10_strictMono", "fromSurrogate_toSurrogate_log10", "closestGridPoint_roundtrip_log10",
+    # warm starts (result_t::closest_trial as ml::tune calls it), order of the returned steps
+    "closestTrial_frame", "closestTrial_lt", "closestTrial_zero", "closestTrial_nearest", "tune_reads_only_earlier",
+    "step_order_strict_weak",
 ]]
 TRUSTED = [
     "Lean 4.33.0 kernel; Mathlib modules imported by NanoVerif/Proofs/Tuner*.lean and NanoVerif/Props/C13.lean",
     "axioms: at most propext, Classical.choice, Quot.sound (audited per theorem on every run)",
     "hand-written models NanoVerif/Model/Tuner.lean (tuner.cpp, tuner/util.cpp, tuner/local.cpp, control skeleton of "
-    "tuner/surrogate.cpp, combinatorial.h) and NanoVerif/Model/Tune.lean (machine/tune.cpp, machine/result.cpp); tied to the "
-    "code by the correspondence run (harness/c13.cpp on the real library vs the compiled Lean driver, exact comparison)",
+    "tuner/surrogate.cpp, combinatorial.h), NanoVerif/Model/TunerSurrogate.lean (tuner/space.cpp, the two functions of "
+    "tuner/surrogate.cpp and the derivation of the proposed centre) and NanoVerif/Model/Tune.lean (machine/tune.cpp, "
+    "machine/result.cpp); tied to the code by the correspondence run (harness/c13.cpp on the real library vs the compiled Lean "
+    "driver: exact comparison, except the fit objective whose Eigen products are compared to 1e-12 of the summed magnitudes)",
+    "hooks: solver.done (final state of every L-BFGS run inside the surrogate tuner), pool hook H1 map_enter (batches of ml::tune)",
+    "Float.log10 / Float.pow of the Lean runtime and std::log10 / std::pow call the same libm",
     "std::sort returns a sorted permutation (SortSpec); pool_t::map runs every index exactly once (= C17)",
     "tools/props/c13.py generator + direct monitors; harness/c13.cpp; g++/libstdc++/Eigen",
 ]
 ASSUMPTIONS = [
-    "the L-BFGS fit and minimisation of the quadratic surrogate are not modelled: the centre it proposes is an oracle "
-    "(any grid point or a failure); the theorems hold for every such oracle",
+    "the two L-BFGS runs of a surrogate iteration (fit of the quadratic, minimisation of the fitted quadratic) are the oracle "
+    "Tuner.Solver (any answer or a failure; the theorems hold for every such oracle); what is handed to them and how the centre is "
+    "derived from the minimiser is modelled; run-time monitors (python oracle, every `run surrogate` case): a run reported "
+    "converged ends at a point meeting the stopping criterion for the function as defined, valid states are finite, the next "
+    "batch is the neighbourhood of the first closest grid point of the logged minimiser",
     "the callback returns exactly one value per requested row (the harness callback does)",
     "percentiles / standard deviation of ml::store_stats are not modelled here (C20): the model treats the 12 numbers of a "
     "(trial, fold) as an opaque payload handed over by the harness; the python oracle recomputes mean, count and percentiles",
@@ -41,7 +59,10 @@ RULE = ("function level: local_search for every source point of small boxes (d <
         "evaluate on random (also unsorted, also tied) step lists; run level: both tuners on 1..3 grids of 2..31 values "
         "(linear and log10), max_evals 10..1000, landscapes as lookup tables: injective, separable bowls, corner minima, plateaus, "
         "hashed (many ties), constant, with nan/inf entries; ml::tune with 0..2 grids, 2..10 folds, both tuners, per-sample "
-        "tensors from a lookup table; a run/tune case is non-trivial when the grid has at least 5 points (then at least 3 batches "
+        "tensors from a lookup table (closest earlier trial checked against the batches observed at the pool); function level: "
+        "param_space_t (valid and refused grids; queries on grid values, surrogate coordinates of grid points, mid-points, outside the "
+        "range, 1e88, inf, nan), quadratic_surrogate_fit_t and quadratic_surrogate_t value/gradient on random data (d <= 4, <= 40 "
+        "samples, also run-away points ~1e80) against exact rational arithmetic; a run/tune case is non-trivial when the grid has at least 5 points (then at least 3 batches "
         "are requested and the centre is proposed again and filtered); distinct by op text")
 FLAVOUR = {"quick": "plain", "thorough": "asan"}
 HARNESS_TIMEOUT = 1500
@@ -229,6 +250,85 @@ def gen_tune(rng, tuner=None):
             f"{spaces_str(spaces)} {A} {B} {C} {D} {E} {fl(table)}")
 
 
+EPS = 2.220446049250313e-16
+
+
+def to_sur(ty, vals, v):
+    """param_space_t::to_surrogate as the documentation states it (linear: position within [min, max]; log10)"""
+    if ty == 1:
+        return (v - vals[0]) / (vals[-1] - vals[0])
+    return math.log10(v)
+
+
+def gen_space_op(rng):
+    n = pick_size(rng)
+    ty, vals = gen_space(rng, n)
+    r = rng.below(12)
+    if r == 0:
+        vals = vals[:1]                                   # a single value
+    elif r == 1 and len(vals) > 2:
+        i = rng.below(len(vals) - 1); vals[i], vals[i + 1] = vals[i + 1], vals[i]   # not sorted
+    elif r == 2:
+        i = rng.below(len(vals) - 1); vals[i + 1] = vals[i]                            # not distinct
+    elif r == 3:
+        ty = 0; vals = [rng.choice([0.0, -1.0, 1e-17, EPS / 2, EPS])] + [1.0 + k for k in range(n - 1)]  # log10 of <= 0
+    qs = []
+    ok = len(vals) >= 2 and all(a < b for a, b in zip(vals, vals[1:])) and (ty == 1 or vals[0] >= EPS)
+    if ok:
+        sg = [to_sur(ty, vals, v) for v in vals]
+        for _ in range(rng.range(3, 12)):
+            k = rng.below(len(vals))
+            c = rng.below(9)
+            if c == 0:
+                qs.append(vals[k])                                   # a grid value (to_surrogate on the grid)
+            elif c == 1:
+                qs.append(sg[k])                                     # the surrogate coordinate of a grid point: round trip
+            elif c == 2 and k + 1 < len(vals):
+                qs.append((sg[k] + sg[k + 1]) / 2)                   # half way between two grid points (ties)
+            elif c == 3:
+                qs.append(rng.choice([1e88, -1e88, 5.2e300, float("inf"), float("-inf"), float("nan"), 0.0, 1.0]))
+            elif c == 4:
+                qs.append(rng.uniform(vals[0], vals[-1]))            # inside the range of values
+            elif c == 5:
+                qs.append(rng.choice([vals[0] - 1e-9, vals[-1] + 1e-9, vals[0], vals[-1]]))
+            else:
+                lo, hi = min(sg), max(sg)
+                qs.append(rng.uniform(lo - 0.5 * (hi - lo), hi + 0.5 * (hi - lo)))
+    else:
+        qs = [rng.uniform(-1.0, 2.0) for _ in range(2)]
+    return f"tuner space {ty} {fl(vals)} {fl(qs)}"
+
+
+def gen_sfit(rng):
+    d = rng.choice([1, 1, 2, 2, 3])
+    n = rng.choice([1, 2, 3, 5, 8, 13, 21, 40])
+    c = rng.below(3)
+    if c == 0:
+        ps = [rng.range(0, 8) / 8.0 for _ in range(n * d)]          # dyadic surrogate coordinates (exact arithmetic)
+    elif c == 1:
+        ps = [rng.uniform(0.0, 1.0) for _ in range(n * d)]
+    else:
+        ps = [rng.uniform(-6.0, 0.0) for _ in range(n * d)]         # log10 coordinates
+    ys = [rng.uniform(-5.0, 5.0) * rng.choice([1.0, 1.0, 1e3, 1e-3]) for _ in range(n)]
+    m = (d + 1) * (d + 2) // 2
+    x = [0.0] * m if rng.chance(0.15) else [rng.uniform(-3.0, 3.0) for _ in range(m)]
+    return f"tuner sfit {n} {d} {fl(ps)} {fl(ys)} {fl(x)}"
+
+
+def gen_squad(rng):
+    d = rng.choice([1, 1, 2, 2, 3, 4])
+    m = (d + 1) * (d + 2) // 2
+    model = [rng.uniform(-40.0, 40.0) if rng.chance(0.8) else float(rng.range(-3, 3)) for _ in range(m)]
+    c = rng.below(6)
+    if c == 0:
+        x = [rng.choice([1.0, -1.0]) * rng.uniform(1.0, 9.0) * 10.0 ** rng.range(60, 90) for _ in range(d)]   # run-away iterates
+    elif c == 1:
+        x = [0.0] * d
+    else:
+        x = [rng.uniform(-2.0, 3.0) for _ in range(d)]
+    return f"tuner squad {fl(model)} {fl(x)}"
+
+
 def gen(rng, tier):
     ops = []
     cp = os.path.join(vlib.VERIF, "corpus", "C13", "ops.txt")
@@ -264,6 +364,12 @@ def gen(rng, tier):
         ops.append(gen_run(rng, kind="huge", max_evals=rng.choice([10, 20])))
     for _ in range(3000 if big else 450):
         ops.append(gen_tune(rng))
+    for _ in range(3000 if big else 400):
+        ops.append(gen_space_op(rng))
+    for _ in range(2000 if big else 300):
+        ops.append(gen_sfit(rng))
+    for _ in range(2000 if big else 300):
+        ops.append(gen_squad(rng))
     return ops
 
 
@@ -365,6 +471,12 @@ def oracle(aug, res):
         return oracle_run(t, r, head)
     if op == "tune":
         return oracle_tune(t, r, head, aug)
+    if op == "space":
+        return oracle_space(t, r, head)
+    if op == "sfit":
+        return oracle_sfit(t, r, head)
+    if op == "squad":
+        return oracle_squad(t, r, head)
     return f"unknown op {op}"
 
 
@@ -420,9 +532,117 @@ def check_batch(spaces, batches, fresh):
     return None
 
 
+def read_solves(t):
+    """the part of the augmented `run` op after the landscape: observed batches, first step, solver log"""
+    assert t.s() == "|"
+    for _ in range(t.int()):
+        for _ in range(t.int()):
+            t.ints()
+    for _ in range(t.int()):
+        t.ints()
+    assert t.s() == "|"
+    eps = t.f()
+    solves = []
+    for _ in range(t.int()):
+        solves.append(dict(nsteps=t.int(), conv=t.int(), valid=t.int(), fx=t.f(), x0=t.fs(), x=t.fs(), gx=t.fs()))
+    return eps, solves
+
+
+def gradient_test(fx, g):
+    """the solver's stopping criterion: |g|_inf / max(1, |f|)"""
+    return max(abs(v) for v in g) / max(1, abs(fx))
+
+
+def stationary(what, fx, g, sc_g, eps):
+    """run-time monitor: a run that ended `converged` ended at a point that satisfies the stopping criterion for the
+    function as defined (value and gradient recomputed exactly), up to the rounding of the gradient's sums"""
+    slack = max(Fraction(TOL) * s for s in sc_g) / max(1, abs(fx))
+    gt = gradient_test(fx, g)
+    if gt >= Fraction(eps) * (1 + Fraction(1, 10 ** 6)) + slack:
+        return f"{what}: the solver reports convergence, but |gradient| / max(1, |value|) = {float(gt):.3e} >= epsilon {eps:.1e}"
+    return None
+
+
+def check_surrogate(spaces, f, batches, eps, solves, thrown):
+    """monitors of the surrogate tuner's proposals: the solver runs alternate fit / minimisation; every minimiser is
+    mapped, per coordinate, to the first closest grid point (surrogate coordinates) and the next batch is that point's
+    neighbourhood minus the evaluated points; converged runs end at stationary points of the functions as defined"""
+    sizes = [len(v) for _, v in spaces]
+    mn, mx = [0] * len(sizes), [n - 1 for n in sizes]
+    sgs = [[to_sur(ty, vals, v) for v in vals] for ty, vals in spaces]
+    seen, starts = [], {}
+    for bi, b in enumerate(batches):
+        starts[len(seen)] = bi
+        seen += [decode(spaces, p) for p in b]
+    for k in range(0, len(solves), 2):
+        e1 = solves[k]
+        e2 = solves[k + 1] if k + 1 < len(solves) else None
+        n = e1["nsteps"]
+        pts = seen[:n]
+        if not e1["valid"]:
+            if e2 is not None or not thrown:
+                return "surrogate-fit-invalid: the tuner went on after a failed fit"
+            continue
+        if any(not math.isfinite(v) for v in e1["x"]):
+            return "surrogate-fit-invalid: a state with non-finite coefficients is reported valid"
+        m = [Fraction(v) for v in e1["x"]]
+        d = len(spaces)
+        if len(m) != (d + 1) * (d + 2) // 2:
+            return f"surrogate-size: {len(m)} coefficients fitted for {d} hyper-parameters"
+        if e1["conv"]:
+            rows = [quad_terms([Fraction(sgs[i][gi]) for i, gi in enumerate(g)]) for g in pts]
+            ys = [Fraction(f(g)) for g in pts]
+            fx, g = fit_value_grad(rows, ys, m)
+            _, sc = fit_value_grad([[abs(a) for a in row] for row in rows], [-abs(v) for v in ys], [abs(v) for v in m])
+            why = stationary("fit-not-stationary", fx, g, sc, eps)
+            if why:
+                return why
+        if e2 is None:
+            return None if thrown else "surrogate: a fit without the minimisation that follows it"
+        if e2["nsteps"] != n:
+            return "surrogate: the solver runs do not alternate fit / minimisation"
+        if not e2["valid"]:
+            if not thrown or k + 2 < len(solves):
+                return "surrogate-min-invalid: the tuner went on after a failed minimisation"
+            continue
+        x = e2["x"]
+        if len(x) != d or any(not math.isfinite(v) for v in x):
+            return "surrogate-min-invalid: a state with a non-finite point is reported valid"
+        if e2["conv"]:
+            fxq, gq = quad_value_grad(m, [Fraction(v) for v in x])
+            _, sc = quad_value_grad([abs(v) for v in m], [abs(Fraction(v)) for v in x])
+            why = stationary("minimiser-not-stationary", fxq, gq, sc, eps)
+            if why:
+                return why
+        # the proposed centre: per coordinate the first closest grid point, decided only beyond the tolerance
+        cands = []
+        for i in range(d):
+            ds = [abs(x[i] - g) for g in sgs[i]]
+            dmin = min(ds)
+            ok = [kk for kk, dd in enumerate(ds) if dd <= dmin * (1 + 1e-12) + 1e-300 and not any(ds[j] == dd for j in range(kk))]
+            cands.append(ok)
+        nxt = sorted(batches_decoded(spaces, batches, starts.get(n)))
+        hit = False
+        for centre in itertools.product(*cands):
+            want = sorted(g for g in neighbourhood(mn, mx, centre, 1) if g not in pts)
+            if want == nxt:
+                hit = True
+                break
+        if not hit:
+            c0 = tuple(c[0] for c in cands)
+            return (f"wrong-centre: after {n} evaluations the minimiser of the surrogate is {x}, its closest grid point {c0}; "
+                    f"the next batch {nxt} is not that point's neighbourhood minus the evaluated points")
+    return None
+
+
+def batches_decoded(spaces, batches, bi):
+    return [] if bi is None else [decode(spaces, p) for p in batches[bi]]
+
+
 def oracle_run(t, r, head):
-    t.s(); max_evals = t.int()
+    tuner = t.s(); max_evals = t.int()
     spaces = read_spaces(t); f = read_landscape(t)
+    eps, solves = read_solves(t)
     d = len(spaces)
     thrown = head == "throw"
     if thrown:
@@ -444,6 +664,12 @@ def oracle_run(t, r, head):
     if len(seen) > max_evals + 3 ** d:
         return f"budget: {len(seen)} evaluations > max_evals {max_evals} + 3^{d}"
     bad = [bi for bi, b in enumerate(batches) if any(not math.isfinite(f(decode(spaces, p))) for p in b)]
+    if tuner == "surrogate" and not bad:
+        why = check_surrogate(spaces, f, batches, eps, solves, thrown)
+        if why:
+            return why
+    elif tuner != "surrogate" and solves:
+        return "local-search tuner ran a solver"
     if thrown:
         if not bad:
             m = max([abs(f(g)) for g in seen] + [0.0])
@@ -468,6 +694,166 @@ def oracle_run(t, r, head):
     best = min(f(g) for g in seen)
     if first not in seen or f(first) != best:
         return f"first-not-min: first step {first} has value {f(first) if first in seen else None}, minimum observed is {best}"
+    return None
+
+
+# ---------------------------------------------------------------------------------------------------------
+# parameter spaces and the quadratic surrogate: independent evaluation (exact rational arithmetic where possible)
+
+from fractions import Fraction
+
+TOL = 1e-12
+
+
+def frac(x):
+    return Fraction(x) if math.isfinite(x) else None
+
+
+def quad_terms(p):
+    """1, p_i, p_i p_j (i <= j) — the documented feature map of the quadratic surrogate"""
+    n = len(p)
+    return [1] + list(p) + [p[i] * p[j] for i in range(n) for j in range(i, n)]
+
+
+def quad_value_grad(m, x):
+    """value and gradient of the quadratic with coefficients m (ordered as quad_terms) at x"""
+    n = len(x)
+    fx = sum(c * t for c, t in zip(m, quad_terms(x)))
+    g = [m[1 + i] for i in range(n)]
+    k = 1 + n
+    for i in range(n):
+        for j in range(i, n):
+            if i == j:
+                g[i] += 2 * m[k] * x[i]
+            else:
+                g[i] += m[k] * x[j]; g[j] += m[k] * x[i]
+            k += 1
+    return fx, g
+
+
+def fit_value_grad(rows, ys, x):
+    """sum over the samples of the mse loss 0.5 (row . x - y)^2 and its gradient"""
+    fx = 0
+    g = [0] * len(x)
+    for row, y in zip(rows, ys):
+        r = sum(a * b for a, b in zip(row, x)) - y
+        fx += r * r / 2
+        for k, a in enumerate(row):
+            g[k] += r * a
+    return fx, g
+
+
+def near(got, want, scale):
+    """got (float) against the exact value, relative to the magnitude of the summed terms"""
+    if want is None or scale is None:
+        return True
+    if not math.isfinite(got):
+        return abs(scale) > 1e300        # only an overflow may produce it
+    return abs(Fraction(got) - want) <= Fraction(TOL) * scale + Fraction(1, 10 ** 300)
+
+
+def check_vgrad(r, head, want_f, want_g, scale_f, scale_g, what):
+    if head != "ok":
+        return f"{what}: {head}"
+    fx, f0 = r.f(), r.f()
+    gx = r.fs()
+    if not feq(fx, f0):
+        return f"{what}: value with gradient {fx} differs from the value alone {f0}"
+    if len(gx) != len(want_g):
+        return f"{what}: gradient of size {len(gx)}"
+    if not near(fx, want_f, scale_f):
+        return f"{what}-value: {fx}, the definition gives {float(want_f)}"
+    for k, (a, b, sc) in enumerate(zip(gx, want_g, scale_g)):
+        if not near(a, b, sc):
+            return f"{what}-gradient: component {k} = {a}, the derivative of the value is {float(b)}"
+    return None
+
+
+def oracle_sfit(t, r, head):
+    n, d = t.int(), t.int()
+    ps, ys, x = t.fs(), t.fs(), t.fs()
+    if not all(math.isfinite(v) for v in ps + ys + x):
+        return None
+    rows = [quad_terms([Fraction(v) for v in ps[i * d:(i + 1) * d]]) for i in range(n)]
+    fy, fx_ = [Fraction(v) for v in ys], [Fraction(v) for v in x]
+    want_f, want_g = fit_value_grad(rows, fy, fx_)
+    sc_f, sc_g = fit_value_grad([[abs(a) for a in row] for row in rows], [-abs(v) for v in fy], [abs(v) for v in fx_])
+    return check_vgrad(r, head, want_f, want_g, sc_f, sc_g, "surrogate-fit")
+
+
+def oracle_squad(t, r, head):
+    m, x = t.fs(), t.fs()
+    if head == "size-mismatch":
+        return f"surrogate-size: a model of {len(m)} coefficients is taken as a quadratic in {r.int()} variables, not {len(x)}"
+    if not all(math.isfinite(v) for v in m + x):
+        return None
+    fm, fx_ = [Fraction(v) for v in m], [Fraction(v) for v in x]
+    want_f, want_g = quad_value_grad(fm, fx_)
+    sc_f, sc_g = quad_value_grad([abs(v) for v in fm], [abs(v) for v in fx_])
+    return check_vgrad(r, head, want_f, want_g, sc_f, sc_g, "surrogate")
+
+
+def closest_ok(sg, q, got):
+    """is `got` the first grid point closest to q (surrogate coordinates sg)? decided only beyond the tolerance"""
+    ds = [abs(q - g) for g in sg]
+    if not (0 <= got < len(sg)):
+        return f"closest-grid-point: index {got} outside the grid"
+    finite = [x for x in ds if x == x and x < DBL_MAX]
+    if not finite:
+        return None if got == 0 else f"closest-grid-point: {got} although no distance is below DBL_MAX"
+    dmin = min(finite)
+    if not (ds[got] <= dmin * (1 + 1e-12) + 1e-300):
+        return f"closest-grid-point: {got} at distance {ds[got]}, point {ds.index(dmin)} is at distance {dmin}"
+    if any(ds[k] < ds[got] * (1 - 1e-12) for k in range(got)):
+        return f"closest-grid-point: {got} is not the first closest one"
+    if any(ds[k] == ds[got] for k in range(got)):
+        return f"closest-grid-point: {got} is not the first of the equally close points"
+    return None
+
+
+def oracle_space(t, r, head):
+    ty = t.int(); vals = t.fs(); qs = t.fs()
+    bad = (len(vals) < 2 or any(b < a for a, b in zip(vals, vals[1:])) or any(a == b for a, b in zip(vals, vals[1:]))
+           or (ty == 0 and min(vals) < EPS))
+    if head == "throw":
+        return None if bad else "space-rejected: a sorted grid of distinct (positive for log10) values is refused"
+    if bad:
+        return "space-accepted: the constructor accepted a grid that is too short, unsorted, repeated or not positive (log10)"
+    mn, mx = vals[0], vals[-1]
+    sg = [to_sur(ty, vals, v) for v in vals]
+    if any(b <= a for a, b in zip(sg, sg[1:])) and ty == 1:
+        return None       # the grid collapses in floating point: nothing to decide
+    k = r.int()
+    prev = None
+    for q in qs:
+        tos = r.s(); frm = r.f(); cp = r.int(); cv = r.f()
+        outside = q < mn or q > mx
+        if (tos == "x") != outside:
+            return f"to_surrogate: value {q} {'accepted outside' if outside else 'refused inside'} [{mn}, {mx}]"
+        if not outside and q == q:
+            got = h2f(tos)
+            if not vlib.close(got, to_sur(ty, vals, q), 1e-14, 1e-300):
+                return f"to_surrogate({q}) = {got}, expected {to_sur(ty, vals, q)}"
+            if ty == 1 and not (0.0 <= got <= 1.0):
+                return f"to_surrogate({q}) = {got} is outside [0, 1]"
+        if q == q:
+            if not (mn <= frm <= mx):
+                return f"from_surrogate({q}) = {frm} is outside [{mn}, {mx}]"
+            if math.isfinite(q):
+                try:
+                    raw = mn + q * (mx - mn) if ty == 1 else 10.0 ** q
+                except OverflowError:
+                    raw = float("inf")
+                want = min(max(raw, mn), mx)
+                if not vlib.close(frm, want, 1e-14, 1e-300):
+                    return f"from_surrogate({q}) = {frm}, expected {want}"
+        why = closest_ok(sg, q, cp)
+        if why:
+            return why
+        if q in sg and sg.count(q) == 1 and cp != sg.index(q):
+            return f"round-trip: the surrogate coordinate of grid point {sg.index(q)} is mapped to grid point {cp}"
+        if not feq(cv, vals[cp]):
+            return f"closest-grid-value: {cv} is not the value of the closest grid point {cp}"
     return None
 
 
@@ -535,9 +921,10 @@ def oracle_tune(t, r, head, aug):
     assert r.s() == "optimum"; optimum = r.int()
     if rfolds != folds:
         return "result has the wrong number of folds"
-    trial_gi, values = [], []
+    trial_gi, values, trial_params = [], [], []
     for trial in range(trials):
         p = r.fs()
+        trial_params.append(p)
         g = decode(spaces, p)
         if g is None:
             return "off-grid: a trial's hyper-parameter values are not grid values"
@@ -584,6 +971,34 @@ def oracle_tune(t, r, head, aug):
     for gi, fo, closest in calls:
         if closest != -1 and (closest not in ids or closest % 1000 != fo or closest // 1000 == gi):
             return f"closest: call (grid point {gi}, fold {fo}) received model data {closest} of another fold / of no earlier trial"
+    # warm start: every call of a batch receives the model data of the trial closest (Euclidean distance of the
+    # hyper-parameter values) among the trials of the EARLIER batches — never of the batch in flight; the batches are
+    # those observed at the pool (one `map` per batch)
+    assert r.s() == "batches"
+    sizes_b = r.ints()
+    if sum(sizes_b) != trials or any(k <= 0 for k in sizes_b):
+        return f"batches: the pool ran batches of {sizes_b} trials, the result holds {trials} trials"
+    start_of = []
+    a = 0
+    for k in sizes_b:
+        start_of += [a] * k
+        a += k
+    for gi, fo, closest in calls:
+        i = trial_gi.index(gi)
+        a = start_of[i]
+        if a == 0:
+            if sizes_b[0] == 1 and closest != -1:
+                return f"closest-in-flight: the first trial received model data {closest} although nothing was fitted before"
+            continue
+        ds = [math.sqrt(sum((x - y) ** 2 for x, y in zip(trial_params[j], trial_params[i]))) for j in range(a)]
+        dmin = min(ds)
+        ok = [j for j, dd in enumerate(ds) if dd <= dmin * (1 + 1e-12) + 1e-300 and not any(ds[q] == dd for q in range(j))]
+        if closest == -1 or trial_gi.index(closest // 1000) >= a:
+            return (f"closest-in-flight: call (trial {i}, fold {fo}) of the batch starting at trial {a} received the model data "
+                    f"{closest} of a trial of its own batch (or none)")
+        if trial_gi.index(closest // 1000) not in ok:
+            return (f"closest-not-nearest: call (trial {i}, fold {fo}) received the model data of trial "
+                    f"{trial_gi.index(closest // 1000)}, the closest earlier trial is {ok[0]}")
     if not values or any(v != v for v in values):
         return None if trials == 1 else "nan value accepted"
     best = min(values)
@@ -593,6 +1008,55 @@ def oracle_tune(t, r, head, aug):
 
 
 # ---------------------------------------------------------------------------------------------------------
+# correspondence: exact, except for the sums Eigen may re-associate (the fit objective): those are compared relative to
+# the magnitude of the summed terms, which the model prints next to each number
+
+def close_scaled(a, b, scale):
+    if a != a or b != b:
+        return (a != a) and (b != b)
+    if a == b:
+        return True
+    if not (math.isfinite(a) and math.isfinite(b)):
+        return not math.isfinite(scale) or abs(scale) > 1e300
+    return abs(a - b) <= TOL * abs(scale) + 1e-300
+
+
+def compare(aug, impl, model):
+    op = aug.split()[1]
+    if op == "sfit":
+        if "|" not in model.split():
+            return impl == model
+        mt = model.split()
+        cut = mt.index("|")
+        a, b, sc = impl.split(), mt[:cut], mt[cut + 1:]
+        if len(a) != len(b) or a[0] != b[0] or a[3] != b[3] or len(sc) != len(a) - 2:
+            return False
+        fx, f0, g = h2f(a[1]), h2f(a[2]), [h2f(v) for v in a[4:]]
+        mfx, mg = h2f(b[1]), [h2f(v) for v in b[4:]]
+        sfx, sg = h2f(sc[0]), [h2f(v) for v in sc[2:]]
+        return (close_scaled(fx, mfx, sfx) and close_scaled(f0, mfx, sfx) and len(g) == len(mg) == len(sg)
+                and all(close_scaled(x, y, z) for x, y, z in zip(g, mg, sg)))
+    if op == "run":
+        a, b = impl.split(), model.split()
+        if "solves" not in a or "solves" not in b:
+            return impl == model
+        ia, ib = a.index("solves"), b.index("solves")
+        if a[:ia] != b[:ib]:
+            return False
+        ta, tb = Toks(" ".join(a[ia + 1:])), Toks(" ".join(b[ib + 1:]))
+        n = ta.int()
+        if tb.int() != n:
+            return False
+        for _ in range(n):
+            fx, g = ta.f(), ta.fs()
+            mfx, sfx, mg, sg = tb.f(), tb.f(), tb.fs(), tb.fs()
+            if len(g) != len(mg) or len(sg) != len(g) or not close_scaled(fx, mfx, sfx):
+                return False
+            if not all(close_scaled(x, y, z) for x, y, z in zip(g, mg, sg)):
+                return False
+        return ta.done() and tb.done()
+    return impl == model
+
 
 def grid_total(op):
     t = Toks(op); t.s(); o = t.s()
@@ -614,7 +1078,7 @@ def nontrivial(op):
     o = op.split()[1]
     if o == "lsearch":
         return True
-    if o == "evaluate":
+    if o in ("evaluate", "space", "sfit", "squad"):
         return True
     return grid_total(op) >= 5
 
